@@ -339,6 +339,7 @@ class _MessageDB(_Entity):
             return None
         elif msg._expired:
             self._gwy._loop.call_soon(self._delete_msg, msg)  # HA bugs without defer
+            return None  # an expired msg must not be reported (not even once)
 
         if msg.code == Code._1FC9:  # NOTE: list of lists/tuples
             return [x[1] for x in msg.payload]
